@@ -2,7 +2,10 @@
 
 package packet
 
-import "net/netip"
+import (
+	"net"
+	"net/netip"
+)
 
 // Contracts for package packet, checked by /verif/govc (build tag verif).
 
@@ -162,8 +165,10 @@ func verif_inv_DHCP4_validateOptions_1() bool           { return true }
 func verif_dec_DHCP4_validateOptions_1(opts []byte) int { return len(opts) }
 func verif_inv_DHCP4_ParseOptions_1() bool              { return true }
 func verif_dec_DHCP4_ParseOptions_1(opts []byte) int    { return len(opts) }
-func verif_inv_ICMP4Redirect_Addrs_1(i int) bool        { return 0 <= i && i <= 256 }
-func verif_dec_ICMP4Redirect_Addrs_1(i int) int         { return 256 - i }
+func verif_inv_ICMP4Redirect_Addrs_1(i int, addr []net.IP, p ICMP4Redirect) bool {
+	return len(p) >= 8 && 0 <= i && i <= int(p[4]) && len(addr) == i && (i == 0 || (vSameRegion(addr[0], p) && vOffset(addr[0], p) == 8))
+}
+func verif_dec_ICMP4Redirect_Addrs_1(i int) int { return 256 - i }
 func verif_inv_trimNull_1(rangeindex int, d []byte) bool {
 	return -1 <= rangeindex && rangeindex < len(d)
 }
